@@ -417,6 +417,12 @@ func (x *Exec) appendBuiltin(f *Frame, st *State, info *CallInfo) Val {
 		}
 		bt, _ := base.(*Term)
 		at, _ := add.(*Term)
+		if bt == nil {
+			// an encoded value (big-endian integer ...) as the base of an append is its byte string
+			if ev, ok := base.(*EncVal); ok {
+				bt = x.asBytes(st, ev)
+			}
+		}
 		if bt != nil && bt == BytesNil {
 			// appending to an empty byte slice yields the appended bytes
 			if ab := x.asBytes(st, add); ab != nil {
